@@ -1,14 +1,20 @@
 #!/usr/bin/env python3
 """Validate evidence/*.json against the schema and check that each was written on a quiet tree (no violations, proof complete)."""
-import json, glob, sys
+import json, glob, sys, subprocess
 try:
     import jsonschema
 except ImportError:
     jsonschema = None
 schema = json.load(open('/root/.vp/EVIDENCE.schema.json'))
 bad = 0
-for p in sorted(glob.glob('/verif/evidence/C*.json')):
-    e = json.load(open(p)); c = e['coverage']
+staged = "--staged" in sys.argv
+if staged:
+    names = [n for n in subprocess.run(["git", "-C", "/verif", "diff", "--cached", "--name-only"], capture_output=True, text=True).stdout.split() if n.startswith("evidence/C")]
+else:
+    names = sorted(glob.glob('/verif/evidence/C*.json'))
+for p in names:
+    e = json.loads(subprocess.run(["git", "-C", "/verif", "show", ":" + p], capture_output=True, text=True).stdout) if staged else json.load(open(p))
+    c = e['coverage']
     msgs = []
     if jsonschema:
         try: jsonschema.validate(e, schema)
